@@ -62,4 +62,39 @@ theorem ipsw_arm_eq (l : List (Row F)) (ω : Row F → F) (a : Bool) :
   congr 1 <;> rw [sumIf_def] <;> apply sumBy_congr <;> intro r _ <;>
     cases ho : r.obs <;> cases ha : r.a <;> cases a <;> simp [ho, ha, mul_assoc]
 
+/-- the point estimate of the generated `aipw_calculator` (no missing outcome) is the difference / ratio of the
+    model's two pseudo-outcome means -/
+theorem aipw_calc_eq (difference hasWeights : Bool) (nanv : F) (l : List (Row F)) (hobs : ∀ r ∈ l, r.obs = true)
+    (hw : hasWeights = false → ∀ r ∈ l, r.w = 1) (py_a py_n pa1 pa0 : Row F → F) :
+    let Q : Row F → Bool → F := fun r a => if a then py_a r else py_n r
+    (Gen.aipw_calc difference hasWeights nanv l py_a py_n pa1 pa0).1
+      = if difference then aipw1 l Q pa1 pa0 - aipw0 l Q pa1 pa0 else aipw1 l Q pa1 pa0 / aipw0 l Q pa1 pa0 := by
+  intro Q
+  have hy1 : ∀ r, Gen.aipw_y1 r.a r.y (Q r true) (Q r false) (pa1 r) (pa0 r)
+      = (if r.a = true then (r.y - py_a r * (1 - pa1 r)) / pa1 r else py_a r) := by
+    intro r; simp [Gen.aipw_y1, Q]
+  have hy0 : ∀ r, Gen.aipw_y0 r.a r.y (Q r true) (Q r false) (pa1 r) (pa0 r)
+      = (if r.a = false then (r.y - py_n r * (1 - pa0 r)) / pa0 r else py_n r) := by
+    intro r; simp [Gen.aipw_y0, Q]
+  unfold aipw1 aipw0 wmean
+  simp only [hy1, hy0]
+  cases difference <;> cases hasWeights <;>
+    simp only [Gen.aipw_calc, nanmeanBy, Bool.false_eq_true, Bool.true_eq_false, if_false, if_true, reduceIte]
+  · -- ratio, unweighted
+    have hw' := hw rfl
+    simp only [Nat.cast_one, Nat.cast_zero]
+    congr 1 <;> congr 1 <;> apply sumBy_congr <;> intro r hr <;> cases ha : r.a <;> simp [ha, hobs r hr, hw' r hr]
+  · -- ratio, weighted
+    simp only [Nat.cast_one, Nat.cast_zero]
+    congr 1 <;> congr 1 <;> apply sumBy_congr <;> intro r hr <;> cases ha : r.a <;> simp [ha, hobs r hr]
+  · -- difference, unweighted
+    have hw' := hw rfl
+    simp only [Nat.cast_one, Nat.cast_zero]
+    rw [← sub_div, ← sumBy_sub]
+    congr 1 <;> apply sumBy_congr <;> intro r hr <;> cases ha : r.a <;> simp [ha, hobs r hr, hw' r hr]
+  · -- difference, weighted
+    simp only [Nat.cast_one, Nat.cast_zero]
+    rw [← sub_div, ← sumBy_sub]
+    congr 1 <;> apply sumBy_congr <;> intro r hr <;> cases ha : r.a <;> simp [ha, hobs r hr] <;> ring
+
 end ZV.Std
